@@ -54,3 +54,53 @@ pub fn c15_curve_tag_round_trip(t: Bls12381)
     let r = Bls12381::try_from(b);
     assert(r is Ok && r->Ok_0 == t);
 }
+
+/// public keys, accumulated public keys and proofs of possession: the byte form has the group's
+/// fixed length, is a function of the value (deterministic), and the checked decoder returns the
+/// SAME point
+pub fn c15_point_bytes_round_trip(pk: &PublicKey, mpk: &MultiPublicKey, pop: &ProofOfPossession)
+{
+    let v = Vec::from(pk);
+    assert(v@.len() == pk_len());
+    let r = PublicKey::try_from(v.as_slice());
+    assert(r is Ok && r->Ok_0.0 == pk.0);
+    let v2 = Vec::from(mpk);
+    assert(v2@.len() == pk_len());
+    let r2 = MultiPublicKey::try_from(v2.as_slice());
+    assert(r2 is Ok && r2->Ok_0.0 == mpk.0);
+    let v3 = Vec::from(pop);
+    assert(v3@.len() == sig_len());
+    let r3 = ProofOfPossession::try_from(v3.as_slice());
+    assert(r3 is Ok && r3->Ok_0.0 == pop.0);
+}
+
+/// commitment secrets and challenges: as for secret keys
+pub fn c15_commitment_scalars_round_trip(x: &ProofCommitmentSecret, y: &ProofCommitmentChallenge)
+    requires x.0.val() != 0, y.0.val() != 0,
+{
+    proof {
+        lemma_reverse_reverse(scalar_le(x.0)); lemma_all_zero_reverse(scalar_le(x.0));
+        lemma_reverse_reverse(scalar_le(y.0)); lemma_all_zero_reverse(scalar_le(y.0));
+    }
+    let be = x.to_be_bytes();
+    let le = x.to_le_bytes();
+    assert(be@ == le@.reverse() && be@.len() == 32);
+    let b = ProofCommitmentSecret::from_be_bytes(&be);
+    let l = ProofCommitmentSecret::from_le_bytes(&le);
+    assert(b.is_some_spec() && b.value().0 == x.0);
+    assert(l.is_some_spec() && l.value().0 == x.0);
+    let v = Vec::from(x);
+    let r = ProofCommitmentSecret::try_from(v.as_slice());
+    assert(r is Ok && r->Ok_0.0 == x.0);
+
+    let be = y.to_be_bytes();
+    let le = y.to_le_bytes();
+    assert(be@ == le@.reverse() && be@.len() == 32);
+    let b = ProofCommitmentChallenge::from_be_bytes(&be);
+    let l = ProofCommitmentChallenge::from_le_bytes(&le);
+    assert(b.is_some_spec() && b.value().0 == y.0);
+    assert(l.is_some_spec() && l.value().0 == y.0);
+    let v = Vec::from(y);
+    let r = ProofCommitmentChallenge::try_from(v.as_slice());
+    assert(r is Ok && r->Ok_0.0 == y.0);
+}
